@@ -1173,6 +1173,30 @@ func c20(c *Ctx) {
 			}
 		}
 		r.Check("coordinator:flush-forwards", okT, cf.Pos(), "Flush calls the registered Flushable")
+		// a flush is acknowledged only by NotifyFlush (the forwarder, after its post): nothing else puts a token into
+		// the channel, and a flush request is never answered without flushing - between entry and the call of the
+		// target only the "no target registered" test may decide
+		for _, fn := range pkgFuncs(w, "internal/flush") {
+			if fn == nf {
+				continue
+			}
+			snd, _ := chanFieldOps(fn, "flushChan")
+			r.Check("coordinator:only-NotifyFlush-acknowledges:"+fn.Name(), len(snd) == 0, fn.Pos(), fmt.Sprintf("%d sends on flushChan in %s (a self-made acknowledgement lets the next invocation be requested with datapoints still unsent)", len(snd), fn.Name()))
+		}
+		for _, cl := range callsIn(cf) {
+			isTargetCall := cl.Common().IsInvoke() && cl.Common().Method.Name() == "Flush"
+			if !isTargetCall && !cl.Common().IsInvoke() && staticCallee(cl) == nil {
+				isTargetCall = true // the bound method kept in a field
+			}
+			if !isTargetCall {
+				continue
+			}
+			for _, cd := range condsFor(cl.Block()) {
+				f := canonOf(cd)
+				nilTest := (f.Op == token.NEQ || f.Op == token.EQL) && (isNilConst(f.Y) || isNilConst(f.X))
+				r.Check("coordinator:flush-unconditional", nilTest, cl.Pos(), "the target is flushed on every request; the call depends on "+condExpr(cd.V))
+			}
+		}
 		// telemetry handler
 		eh := w.Func("internal/awslambda/extension/telemetry", "(*Server).eventHandler")
 		if eh == nil {
